@@ -127,6 +127,14 @@ ZigzagLemma ==
             /\ \A r \in 1..Len(z) : SortedSA(z)[r] = ZigzagSA(zm)[r]
             /\ IsValidSA(ZigzagSA(zm), z)
 
+\* closed form for texts with pairwise distinct symbols 0..n-1 (checked once): same verdict as IsValidSA
+PermLemma ==
+    (mode = "order" /\ N = 1) =>
+        \A pn \in 2..5 : \A z \in {f \in [1..pn -> 0..(pn - 1)] : PermText(f)} :
+            /\ DenseInt(z)
+            /\ \A g \in {f \in [1..pn -> 0..(pn - 1)] : \A i, j \in 1..pn : f[i] = f[j] => i = j} :
+                  PermSAOK(g, z) <=> IsValidSA(g, z)
+
 \* the carried l never overshoots: the loop may skip the first l comparisons
 KasaiCarry ==
     (mode = "kasai" /\ st.p < N - 1) => LcpLen(t, st.p, sa[aux[st.p + 1]]) >= st.l
